@@ -174,7 +174,16 @@ def main(tier, only_replay=None):
     a3, n3 = a3 + a4, n3 + n4
     chk.extra["impl_conformance"] = {"agree": a1 + a2 + a3, "checked": n1 + n2 + n3}
     # 4. V: fixtures recorded from the real code, validated by TLC
-    fixtures.validate_tree_traces(chk, limit=None if thorough else 400)
+    # ... plus byte inputs enumerated by TLC (MCLex token sequences): whatever symbol sequence the real
+    # scanner makes of them, the real tree builder must treat it as the declarative rule says
+    r = tlc_ok(tlc("MCLex", "MCLex.cfg", consts={"MaxTokens": "3" if thorough else "2", "SampleMod": "20" if thorough else "1", "SamplePick": str(sd % 20 if thorough else 0)},
+                   timeout=3000), "MCLex")
+    chk.add_tlc(r)
+    toks = [("tk:" + "-".join(map(str, m["seq"])), bytes(m["inp"])) for m in r.mbt]
+    toks += [("jtk:" + "-".join(map(str, m["seq"])), b"URL /a\n" + bytes(m["inp"])) for m in r.mbt]
+    if not thorough:
+        toks = toks[sd % 7::7]
+    fixtures.validate_tree_traces(chk, limit=None if thorough else 400, extra_inputs=toks)
     chk.rule = ("documents = TLC-emitted symbol sequences (keyword kind, path flag, '(' , ')'): one per sampled "
                 "(reachable state, symbol) pair of the closed graph, all sequences up to the bound, random walks "
                 "to length 40; distinct = distinct symbol sequences; every one has >= 1 placement decision")
